@@ -48,6 +48,12 @@ func (m MIDIWriter) Write(w midix.Writer, instances []op.Instance) error {
 		if err := instance.Validate(); err != nil {
 			return fmt.Errorf("%w: instance[%d]", err, i)
 		}
+		if k := instance.Key; k != nil {
+			// a well-formed key without a scale (G#, Fb, ...) cannot be played
+			if _, err := op.NewScale(*k); err != nil {
+				return fmt.Errorf("%w: instance[%d]", err, i)
+			}
+		}
 
 		args.update(instance)
 		// apply control changes
